@@ -10,6 +10,7 @@ from .. import splitter_facts as sf
 
 def run(P: Program, rep: Report):
     rep.not_decided += ["equality of the parsed suffix with a stand-alone parse for concrete texts (follows from the product under the model)"]
+    sf.sm.configure(P)
     rep.rule("C04.R1", "resynchronisation: in every scanner state (open quote, open braces, any position in an entry) a "
                        "block start aborts the current block, is handed back, and begins the next block; a failed block ends "
                        "where that mark starts; after a failure the code is again bisimilar to the reference from its "
@@ -19,7 +20,7 @@ def run(P: Program, rep: Report):
     rep.rule("C04.R2", "put-back discipline: a pending mark is returned by the next fetch before the iterator is advanced, the "
                        "slot is cleared, and the position is set to the mark's start (abstract run of _next_mark)")
     issues, scen = sf.check_next_mark(P)
-    fi = P.func("splitter", "Splitter._next_mark")
+    fi = P.func("splitter", f"Splitter.{sf.sm.M_NEXT_MARK}")
     pend = [i for i in issues if "pending" in i["message"] or "analyser" in i["message"] or "current char index" in i["message"]]
     for s in scen:
         if not any(i["scenario"] in s for i in pend):
@@ -37,7 +38,7 @@ def run(P: Program, rep: Report):
                 readers.append((f, n))
     rep.require_count("C04.R4", "reads of the mark iterator", len(readers), 1)
     for f, n in readers:
-        rep.check(f.name == "_next_mark", "C04.R4", f"markiter-read:{f.name}", f"{f.module.relpath}:{n.lineno}",
+        rep.check(f.name == sf.sm.M_NEXT_MARK, "C04.R4", f"markiter-read:{f.name}", f"{f.module.relpath}:{n.lineno}",
                   f"the mark iterator is consumed in {f.name}, outside _next_mark (marks can be skipped or re-read)")
     lib = P.cls("library", "Library")
     for name in ("remove", "replace"):
